@@ -316,7 +316,8 @@ def reduce_groups(base, groups, mode):
 
 def transplant(base, annotated, cur, where, mode=None):
     groups = embed(base, annotated, where)
-    if mode:
+    early = mode == 'early'
+    if mode and not early:
         groups = reduce_groups(base, groups, mode)
     if mode == 'stub':
         # last resort: even the signature / body cannot be shown to the verifier (e.g. `mut self`): the function is emitted as an
@@ -345,7 +346,14 @@ def transplant(base, annotated, cur, where, mode=None):
         if j is None:
             continue
         # current lines inserted before j that matched nothing
-        # contract groups of base lines <= i go right in front of cur[j]
+        # contract groups of base lines <= i go right in front of cur[j] (default placement: as late as possible).  Placement `early`:
+        # the groups of base lines that vanished go right after the previous matched line, in front of the inserted current lines
+        # (annotations are ghost: their position can make a proof fail, never make an unsound one pass; check.py tries both)
+        if early:
+            for g in range(emitted, i):
+                for a in groups[g]:
+                    out.append((a, False))
+            emitted = max(emitted, i)
         for jj in range(j_done, j):
             out.append((cur[jj], True))
         for g in range(emitted, i + 1):
